@@ -76,6 +76,42 @@ fn check_op(op: &DiffOp, old: &[u32], new: &[u32], out: &mut Local) {
             }
         }
     }
+    // accessor forms of one change agree with each other; the op's own accessors agree
+    out.eval();
+    let acc = guard(|| {
+        let mut fails: Vec<String> = Vec::new();
+        for mut c in op.iter_changes(old, new) {
+            if c.value() != *c.value_ref() {
+                fails.push(format!("value() = {} but value_ref() = {}", c.value(), c.value_ref()));
+            }
+            let before = c.value();
+            *c.value_mut() = before;
+            if c.value() != before {
+                fails.push("value_mut() does not address the value".to_string());
+            }
+            let by_tag = match c.tag() {
+                ChangeTag::Equal => c.old_index().is_some() && c.new_index().is_some(),
+                ChangeTag::Delete => c.old_index().is_some() && c.new_index().is_none(),
+                ChangeTag::Insert => c.old_index().is_none() && c.new_index().is_some(),
+            };
+            if !by_tag {
+                fails.push(format!("{:?} change carries indices {:?}/{:?}", c.tag(), c.old_index(), c.new_index()));
+            }
+        }
+        let (t, o, n) = op.as_tag_tuple();
+        if op.tag() != t || op.old_range() != o || op.new_range() != n {
+            fails.push(format!("tag()/old_range()/new_range() = {:?}/{:?}/{:?} but as_tag_tuple() = {:?}", op.tag(), op.old_range(), op.new_range(), (t, o, n)));
+        }
+        fails
+    });
+    match acc {
+        Err(p) => out.violation("panic", format!("change accessors panicked: {} | {}", p, ctx())),
+        Ok(fails) => {
+            if let Some(f) = fails.first() {
+                out.violation("expand.accessors_disagree", format!("{} | {}", f, ctx()));
+            }
+        }
+    }
     // the same expansion through the standard iterator adaptors (they may be specialised)
     out.eval();
     let expect_all = reference_changes(op, old, new);
